@@ -252,5 +252,34 @@ def render : List Str → Str
 
 def printPaths (ps : List LocPath) : Str := render (pathsToks ps)
 
+/-! ### the abbreviated spelling of steps: `child::` omitted, `attribute::` written `@` -/
+
+def axisToksA : Axis → List Str
+  | .child => []
+  | .attribute => [['@']]
+  | a => [axisTok a, [':', ':']]
+
+def stepToksA (s : Step) : List Str :=
+  axisToksA s.axis ++ (stepTestToks s.test ++ predsToks s.preds)
+
+def restToksA : List Step → List Str
+  | [] => []
+  | s :: r => ['/'] :: (stepToksA s ++ restToksA r)
+
+def pathToksA : LocPath → List Str
+  | [] => []
+  | s :: r => stepToksA s ++ restToksA r
+
+def unionToksA : List LocPath → List Str
+  | [] => []
+  | p :: r => ['|'] :: (pathToksA p ++ unionToksA r)
+
+def pathsToksA : List LocPath → List Str
+  | [] => []
+  | p :: r => pathToksA p ++ unionToksA r
+
+/-- `a [ @ x = 1 ] / b / @ y | descendant :: c` -/
+def printPathsA (ps : List LocPath) : Str := render (pathsToksA ps)
+
 end Print
 end Genshi.Path
